@@ -24,8 +24,11 @@ PROP = dict(
         "hand models lean/TongoModel/PoolSelect.lean and PoolSM.lean of liteapi/pool/conn_pool.go and connection.go; "
         "tie: exhaustive selection grid against the proved specification, scripted wait scenarios against the "
         "transition system, translator PoolConsts (comparisons/constants/structure -> obligations), on every run",
-        "hook liteapi/pool/export_verif.go (build tag verif): pool members are real *connection values (real mutex, "
-        "real SetMasterHead/MasterHead, real update channel) whose IsOK/AverageRoundTrip/Client are injected",
+        "hook liteapi/pool/export_verif.go (build tag verif): every pool of the harness is built through the REAL "
+        "addConnection (members arrive in a non-configuration order; the wrapper that injects "
+        "IsOK/AverageRoundTrip/Client is put in the place of the *connection addConnection created, order and "
+        "initial best connection are addConnection's); the members are real *connection values (real mutex, real "
+        "SetMasterHead/MasterHead, real update channel)",
         "Go semantics assumed by PoolSM: sync.RWMutex (Lock needs no reader and no writer; the only modelled reader "
         "is Run), buffered channels, select picks any ready case, deferred unlock runs on panic",
     ],
@@ -49,6 +52,12 @@ PROP = dict(
         "round 2, fixed in the repo)",
     ],
     partial=[
+        "PoolConsts obligations subscribe_ok, wait_ok, offer_ok, setHead_ok, maxLoop_ok, bestPingReplaces_ok tie the "
+        "source comparison to the formula transcribed next to the model (target <= head, max, cur < new, m < s, "
+        "c.rtt < b.rtt), not to PoolSM.step / PoolSelect themselves (structure_ok, consts_ok, firstWorking_ok, "
+        "bestPing_ok, addConnection_ok do mention the model); a divergence between those formulas and step would "
+        "be seen only by the wait.script / selectmv correspondence. Operands are matched by their exact source "
+        "text since round 5 (any other operand makes the translator fail)",
         "select_spec_orig_partial: the selection rule for the code as ORIGINALLY written holds only under "
         "seqno < 2^32-1 (select_wrap_witness: negation at 2^32-1, replayed on Go, fixed in the repo)",
         "liveness is split in two theorems: wait_success_spec (the result becomes ok) and wait_returns (the deferred "
@@ -64,7 +73,7 @@ PROP = dict(
         "offered instead)",
         "NoDeadlock is global (some thread can move), not per thread; SetMasterHead callers have no liveness "
         "theorem of their own beyond publish_not_dropped (their send is enabled whenever the channel has room)",
-        "eventually_notified: a head >= target offered to a waiter is in its channel or about to be put there; that "
+        "offered_head_not_lost: a head >= target offered to a waiter is in its channel or about to be put there; that "
         "the waiter's select then picks the channel rather than a simultaneously ready timer/ctx is Go's choice "
         "(either outcome is allowed by the model)",
         "non-quiescent schedules compared step by step with the model are those realisable with the gates (Run held "
@@ -87,7 +96,9 @@ PROP = dict(
                "original code deadlocks, re-arms its timeout, loses a wake-up on a switch, reads heads and round-trip "
                "times twice (decide-checked counterexample traces, all replayed on the real "
                "goroutines and repaired in the repo). Tie checked on every run: the full 17.2 M-point selection "
-               "grid through the real updateBest against the proved specification, scripted wait scenarios (quiescent "
+               "grid through the real addConnection + updateBest against the proved specification, pool start-up "
+               "(order of arrival vs configuration order, initial best connection: start_order_and_best, "
+               "PoolConsts.addConnection_ok), scripted wait scenarios (quiescent "
                "and gate-forced non-quiescent ones) on the real goroutines against the transition system step by "
                "step, refreshes with heads moved between the reads, direct Go oracles for the rule and for hangs, "
                "and a go/ast translator (PoolConsts) whose obligations tie the comparisons, constants and "
@@ -96,6 +107,6 @@ PROP = dict(
                "runtime semantics of RWMutex/channels/select assumed by PoolSM, the hook file; timers and the "
                "scheduler are environment actions",
     technique="functional model + induction over lists (selection); transition system + inductive invariants "
-              "closed by case analysis over 17 actions (wait protocol); decide-checked counterexample traces; "
+              "closed by case analysis over the 23 actions (wait protocol); decide-checked counterexample traces; "
               "exhaustive grid + scripted/adversarial schedules on the real goroutines for the tie",
 )
